@@ -45,6 +45,7 @@ func TestVerifC17(t *testing.T) {
 		t.Fatal(err)
 	}
 	rep := &simReport{Extra: map[string]any{}}
+	simOnStall("c17_result.json", rep)
 	defer func() {
 		rep.Events = ndj.Count()
 		ndj.Close()
@@ -181,7 +182,7 @@ func TestVerifC17(t *testing.T) {
 		if only := os.Getenv("VERIF_ONLY"); only != "" && only != s.name {
 			continue
 		}
-		synctest.Test(t, func(t *testing.T) {
+		verifsim.Bubble(t, func(t *testing.T) {
 			tr := &verifsim.Trace{}
 			cl := verifsim.NewCluster(tr)
 			cl.AddServer("ms")
